@@ -115,9 +115,31 @@ func VerifC11ImportGuards(scenario int) {
 	case 0: // destination already holds an account key
 		_ = verifAcctPub(dst)
 		verif_assert(dst.ImportAccountKeys(ak, pk) != nil, "C11.guard: refused when an account key exists")
-	case 1: // destination already holds a proof key
-		_, _ = dst.GetAccountProofPublicKey()
+	case 1: // destination already holds a proof key (and no account key)
+		_, err := dst.deviceKeystore.getAccountProofPrivateKey()
+		verif_assume(err == nil)
 		verif_assert(dst.ImportAccountKeys(ak, pk) != nil, "C11.guard: refused when a proof key exists")
+		verif_reach("C11.guard.ok")
+		return
+	case 5: // destination has used a multi-member group (proof key generated, member key cached) before the import
+		g, _, err := protocoltypes.NewGroupMultiMember()
+		verif_assume(err == nil)
+		before, err := dst.GetOwnMemberDeviceForGroup(g)
+		verif_assume(err == nil)
+		accepted := dst.ImportAccountKeys(ak, pk) == nil
+		verif_assert(!accepted, "C11.guard: refused when a group was already used on this store (proof key exists)")
+		after, err := dst.GetOwnMemberDeviceForGroup(g)
+		verif_assert(err == nil && after.Member().Equals(before.Member()), "C11.guard: the member key of a group never changes on a store")
+		if accepted {
+			// whatever was accepted: cached and recomputed derivations agree with every other device of that account
+			fresh := verifNewStore("F", 2)
+			verif_assume(fresh.ImportAccountKeys(ak, pk) == nil)
+			fm, err := fresh.GetOwnMemberDeviceForGroup(g)
+			verif_assume(err == nil)
+			verif_assert(after.Member().Equals(fm.Member()), "C11.guard: after an accepted import the member key equals the one every device of the account derives")
+		}
+		verif_reach("C11.guard.ok")
+		return
 	case 2:
 		verif_assert(dst.ImportAccountKeys(ak, ak) != nil, "C11.guard: refused when both keys are equal")
 	case 3:
